@@ -547,6 +547,12 @@ struct Exec {
         g_heap.issues.clear();
         if (on(CK_WIPE)) for (auto &b : g_heap.blocks) if (b.free_op == i && b.owner_slot != -2 && !b.zero_at_free) {
             violate("not-wiped", strf("%s released block #%d (%zu bytes, %s back end) with non-zero content at offset %zu", op_brief(plan, o).c_str(), b.id, b.size, backend_before == 2 ? "256-bit" : backend_before == 1 ? "128-bit" : "generic", b.first_nonzero_at_free)); return; }
+        // cleanup of a live object returned: nothing the object owned may survive it with content (a context that is neither
+        // erased nor released is key-dependent state left behind all the same)
+        if (on(CK_WIPE) && o.code == OP_CLEANUP && obj && life_before == L_INIT) for (auto &b : g_heap.blocks) if (b.live && b.owner_slot == o.slot) {
+            size_t q = 0; while (q < b.size && !b.base[q]) ++q;
+            if (q < b.size) { violate("not-wiped", strf("%s returned but block #%d (%zu bytes, %s back end) that the object owned is still allocated with non-zero content at offset %zu: neither erased nor released", op_brief(plan, o).c_str(), b.id, b.size, backend_before == 2 ? "256-bit" : backend_before == 1 ? "128-bit" : "generic", q)); return; }
+        }
         g_heap.scan_nonzero();
         if (o.code == OP_CLEANUP && obj && life_before == L_INIT && (on(CK_WIPE) || on(CK_HEAP))) {
             static const char *BE[] = {"generic", "vec128", "vec256"};
@@ -625,6 +631,10 @@ struct Exec {
                 S[s].life = L_CLEANED;
                 for (int q = (int)plan.ops.size() - 1; q >= 0; --q) if (plan.ops[q].slot == (int)s) { cur = q; break; }   // report against the last operation on this object
                 if (on(CK_WIPE)) for (auto &b : g_heap.blocks) if (b.free_op == freeop && b.owner_slot == (int)s && !b.zero_at_free) { violate("not-wiped", strf("final cleanup of %s#%zu (%s back end) released block #%d (%zu bytes) with non-zero content at offset %zu", KIND_NAME[S[s].kind], s, be == 2 ? "256-bit" : be == 1 ? "128-bit" : "generic", b.id, b.size, b.first_nonzero_at_free)); break; }
+                if (on(CK_WIPE) && !stop) for (auto &b : g_heap.blocks) if (b.live && b.owner_slot == (int)s) {
+                    size_t q = 0; while (q < b.size && !b.base[q]) ++q;
+                    if (q < b.size) { violate("not-wiped", strf("final cleanup of %s#%zu returned but block #%d (%zu bytes) that the object owned is still allocated with non-zero content at offset %zu: neither erased nor released", KIND_NAME[S[s].kind], s, b.id, b.size, q)); break; }
+                }
                 if (on(CK_HEAP) && !g_heap.issues.empty()) { violate("heap-misuse", g_heap.issues[0].what); break; }
             }
             if (!stop && on(CK_HEAP)) {
